@@ -228,7 +228,7 @@ def defaults(ctx):
     before = {k: a.copy() for k, a in system.atoms.view.items()}
     paths, _, _ = run_gen(ctx, 'interstitial', system, [], dict(pos=POS))
     res, _r = _outcome(paths)
-    ok = res is not None and int(res.atoms.view['atype'][-1]) == 1 and is_zero(sp.sympify(res.atoms.view['charge'][-1]))
+    ok = res is not None and int(res.atoms.view['atype'][-1]) == 1 and all(is_zero(sp.sympify(x)) for x in np.ravel(np.asarray(res.atoms.view['charge'][-1], dtype=object)))
     ctx.ob('DEFECT-ATOM', PT + '::interstitial', 'without given values the interstitial has type 1 and zero-valued properties', bool(ok), node=ctx.fn(PT, 'interstitial'), key='defaults interstitial')
     paths, _, _ = run_gen(ctx, 'dumbbell', base_system(), [], dict(ptd_id=2, db_vect=DB))
     res, _r = _outcome(paths)
